@@ -353,7 +353,7 @@ PROPS = {
                 "owners that are not Base32hex / too long / not UTF-8 / too short, wrong hash lengths, 65535 iterations, unknown hash algorithm, broken bitmaps, "
                 "NSEC next names outside the zone or equal to the owner, DNSKEY RRsets with empty or short RSA keys or 40 extra keys, DS RRsets with short "
                 "RDATA, unknown digest types or 40 extra members) must only not panic or run away; DNAME chains and a zone signed with an imported RSA key "
-                "are part of the hierarchy; (e) forgeries assembled from validly signed parts: an NXDOMAIN proven with the wrap-around NSEC of a child zone, "
+                "are part of the hierarchy; (e) forgeries assembled from validly signed parts: an NXDOMAIN proven with the wrap-around NSEC of a child zone, an NXDOMAIN for a name below a DNAME at a zone's apex proven with that zone's SOA and apex NSEC, "
                 "a signature naming an unsigned zone as signer, and a genuine wildcard RRset replayed (with the genuine NSEC/NSEC3 covering the name) as the "
                 "answer for a name below an existing sibling of the wildcard; (f) one validation context across a key withdrawal and a signature expiry; (g) one validation context asked about a genuine answer and the same answer with its data "
                 "altered under the same RRSIG, in either order, twice; (h) the validating client transport net::client::validator::Connection under every combination of the request's CD / DO / AD bits, "
